@@ -1,7 +1,9 @@
 """C19 -- quality values order content negotiation."""
+import collections
 import itertools
 import math
 import re
+import types
 from fractions import Fraction
 
 from harness.coqfmt import B, L, P, X
@@ -23,7 +25,14 @@ RULE = ('T2: float() syntax (bytes and str arguments), order of finite decimals,
 	'parameter values as token / quoted-string / quoted-pairs, parameters and elements in another order (perm); 11..4096 elements, values, parameter names and values, q texts and blank runs of limit lengths '
 	'(model up to 600 octets, oracle beyond); 90 degenerate fields x five names; uni (oracle): NFC / NFD / compatibility / Hangul / astral text in parameter (RFC 2231, raw ISO-8859-1, API) and value '
 	'(RFC 2047) positions comes back code point for code point and reads back from what was composed; seq (oracle): one Headers object set / parsed / appended / element-set / deleted / rotated in turn, '
-	'elements() twice and against a fresh object each time, q parameters of returned elements replaced and re-sorted')
+	'elements() twice and against a fresh object each time, q parameters of returned elements replaced and re-sorted. '
+	'Fifth wave: blk (model + oracle): one negotiation list in 2-3 field lines of one name, adjacent / separated by other fields (other negotiation fields included) / first and last of the block, '
+	'names in every letter case, obs-fold, malformed q in an early or late line, through parse (bytes / bytearray / two calls / one call per line), append, set + append, the server state machine '
+	'with the request cut into fragments, compose + re-parse, copy, merge: the elements are those of the one-line form of RFC 7230 3.2.2 (model evaluated on the form the harness joins); '
+	'typ (oracle): every entry point with str / bytes / bytearray / memoryview / object-with-__bytes__ values, dict / OrderedDict / pairs / tuple / iterator / generator / map / chain / items / '
+	'mappingproxy arguments, parameters in the order given; ali (oracle): copies, shared argument dicts and lists, merged and updated objects, returned lists changed; ref (oracle): a refused call '
+	'(malformed q, bad name, bad line, wrong type) leaves the object as an untouched twin; RFC 2231 / RFC 2047 text under 18 charset labels; every per-mille quality between its neighbours; '
+	'parameter values with padding / blanks / control octets; lengths 2^k, 2^k +- 1 (k = 9..16) in every position')
 EXHAUSTIVE = {'quick': False, 'thorough': False}
 TRUSTED = ['harness/tables/elemlex.py + harness/tables/accept.py (T1: bytes.strip set, regex classes, pinned patterns, float() octet classes and special words, the five field classes)',
 	'harness/props/C19.py + coq/Corr/C19.v (T2 canonicalisation: str values re-encoded as ISO-8859-1, qualities as exact fractions for the oracle and never given to Coq)',
@@ -239,6 +248,7 @@ def gen_cases(rng, tier):
 				del fv[rng.randrange(len(fv))]
 		cases.append({'k': 'elems', 'name': name, 'fv': bytes(fv).hex()})
 	cases.extend(_wave4(rng, tier))  # appended last: the cases above stay what they were for a given seed
+	cases.extend(_wave5(rng, tier))  # fifth wave, appended after the fourth for the same reason
 	return cases
 
 
@@ -486,6 +496,8 @@ def observe(c):
 		return _observe_uni(c)
 	if k == 'seq':
 		return {'s': _observe_seq(c)}
+	if k in W5_OBSERVE:
+		return W5_OBSERVE[k](c)
 	raise ValueError(k)
 
 
@@ -505,10 +517,14 @@ def _uni_field(c):
 	tail = ('' if c['q'] is None else ';q=' + c['q'])
 	second = ', ' + v2 + ('' if c['q2'] is None else ';q=' + c['q2'])
 	how = c['how']
+	cs = c.get('cs', 'utf-8')  # fifth wave: the charset label is a knob of both notations (RFC 2231 / RFC 2047); Python's codec of that name is the reference
 	if how == 'rfc2231':
-		return (v + ";title*=utf-8''" + quote(txt.encode('utf-8'), safe='') + tail + second).encode('ascii'), v, v2
+		return (v + ";title*=" + cs + "''" + quote(txt.encode(cs), safe='') + tail + second).encode('ascii'), v, v2
 	if how == 'rfc2047':  # the value itself is an encoded word
-		w = '=?utf-8?b?' + base64.b64encode(txt.encode('utf-8')).decode('ascii') + '?='
+		if c.get('enc') == 'q':
+			w = '=?' + cs + '?q?' + ''.join('=%02X' % x for x in txt.encode(cs)) + '?='
+		else:
+			w = '=?' + cs + '?b?' + base64.b64encode(txt.encode(cs)).decode('ascii') + '?='
 		return (w + tail + second).encode('ascii'), None, v2
 	if how == 'raw':
 		return (v + ';title="' + txt + '"' + tail + second).encode('ISO8859-1'), v, v2
@@ -682,7 +698,9 @@ def coq_case(c, o):
 		if o.get('skip'):
 			return None
 		return 'CFloatCmp %s %s %s %s %s' % (B(c['b1']), X(bytes.fromhex(c['t1'])), B(c['b2']), X(bytes.fromhex(c['t2'])), o['c'])
-	if c.get('nocoq') or k in ('uni', 'seq'):
+	if k == 'blk':
+		return _coq_blk(c, o)
+	if c.get('nocoq') or k in ('uni', 'seq', 'typ', 'ali', 'ref'):
 		return None  # long items of the fourth wave, Unicode text (RFC 2231 / 2047: outside the model) and object sequences: oracle only
 	if k == 'elems':
 		if 'harness_exception' in o or str(o.get('err', '')).startswith('escape'):
@@ -694,10 +712,14 @@ def coq_case(c, o):
 		elif o.get('err') == 'typeerror':
 			obs = 'EoTypeError'
 		else:
-			obs = '(EoOk %s)' % L(['(%s, %s, %s)' % (X(bytes.fromhex(e['v'])), L([P(X(bytes.fromhex(a)), X(bytes.fromhex(b))) for a, b in e['p']], '(bytes * bytes)'), X(bytes.fromhex(e['t']))) for e in o['es']],
-				'(bytes * list (bytes * bytes) * bytes)')
+			obs = _coq_eook(o)
 		return 'CElems %s %s %s %s' % (B(_must(c)), X(c['name'].encode()), X(bytes.fromhex(c['fv'])), obs)
 	return None
+
+
+def _coq_eook(o):
+	return '(EoOk %s)' % L(['(%s, %s, %s)' % (X(bytes.fromhex(e['v'])), L([P(X(bytes.fromhex(a)), X(bytes.fromhex(b))) for a, b in e['p']], '(bytes * bytes)'), X(bytes.fromhex(e['t']))) for e in o['es']],
+		'(bytes * list (bytes * bytes) * bytes)')
 
 
 def _qnum(text):
@@ -829,6 +851,8 @@ def oracle(c, o):
 		return _oracle_uni(c, o)
 	if k == 'seq':
 		return _oracle_seq(c, o['s'])
+	if k in W5_ORACLE:
+		return W5_ORACLE[k](c, o)
 	if k == 'perm':
 		a, b = o['a'], o['b']
 		for r in (a, b):
@@ -935,6 +959,10 @@ def nontrivial(c, o):
 		return ('float', c['b'], c['t'])
 	if c['k'] == 'perm':
 		return ('perm', c['fv'], c['fv2'])
+	if c['k'] == 'blk':
+		return ('blk', c['via'], repr(c['lines']))
+	if c['k'] in ('typ', 'ali', 'ref'):
+		return (c['k'], c['how'], c['name'], repr(c['want']))
 	return None
 
 
@@ -947,3 +975,835 @@ LEVEL_TEXT = ('Machine-checked Coq theorems about a Gallina model of Headers.ele
 LEVEL_NOTE = ('Trusted: Coq kernel + vm_compute; T1 tables and the T2 harness; float() value as an abstract total preorder; RFC 2047 words and RFC 2231 names are outside the model '
 	'(the model says so explicitly and the theorems only speak about FOk results). No axioms (Print Assumptions: closed).')
 TECHNIQUE = 'Coq proof on a Gallina model + vm_compute correspondence against the implementation'
+
+
+# ------------------------------------------------------------------ fifth wave: classes 10-17 of DESIGN.md section 8
+# (10) aliasing, (11) argument types, (12) refused operations, (13) charset knobs of the two text notations, (14) order of field lines (repeated lines
+# of one name that are NOT adjacent), (15) the same lines through every path and order of calls the API allows (fragmented wire input included),
+# (16) value-dependent branches (every per-mille quality value, parameter values with '=' padding / blanks / control octets), (17) lengths 2^k, 2^k +- 1.
+# Kept out on purpose (clean-tree behaviour that other properties own or that is no statement of C19):
+#  * runs of two or more backslashes and double quotes (escaped) in a quoted parameter value: known finding D17 (C09) - the unescape regex drops one backslash of every
+#    run, the quote-parity split regexes count escaped quotes;
+#  * NEW clean-tree finding of this round, reported to the lead and not generated: a quoted parameter value that contains the q separator (';' blanks 'q' blanks '=',
+#    e.g. en;x=";q=1" or x="; q=0.1") - RE_Q_SEPARATOR is not quote-aware, the element is cut inside the quoted-string and the whole valid field is refused;
+#  * a parameter value that begins or ends with HT / VT / FF is composed unquoted and stripped when read again (compose direction, C09): such values are
+#    only read here, the composed text is not read back;
+#  * Headers([(name, v1), (NAME, v2)]): the constructor has dict semantics, the later pair replaces the earlier one (not field-line semantics);
+#  * Headers.set(<not a mapping>) clears the object before update() raises (reported as an observation; not a negotiation statement);
+#  * memoryview / str arguments of Headers.parse and Element.parse / split are refused with AttributeError / TypeError (the documented type is bytes).
+OTHERF = [('User-Agent', 'demo/1.0'), ('Cache-Control', 'no-cache'), ('X-Custom', '1'), ('Referer', 'http://localhost/'), ('Via', '1.1 x'), ('Cookie', 'a=b'), ('X-Accept', 'a;q=x')]
+BLK_VIAS = ['parse', 'parse_ba', 'parse2', 'lines', 'append', 'setappend', 'server', 'compose', 'copy', 'merge']
+BLK_LAYOUTS = ['adjacent', 'separated', 'ends', 'random']
+BADQ = ['x', 'high', '0.5x', '', 'nan', '1e999']
+POW2 = [(1 << k) + d for k in range(9, 17) for d in (-1, 0, 1)]
+TYP_FIELD = ['set_str', 'set_bytearray', 'set_memoryview', 'set_lower', 'set_bytes_name', 'set_obj', 'ctor_dict', 'ctor_odict', 'ctor_pairs', 'ctor_tuple', 'ctor_iter', 'ctor_gen',
+	'ctor_map', 'ctor_chain', 'ctor_kw', 'ctor_headers', 'ctor_bytes', 'update_dict', 'update_odict', 'update_headers', 'set_dict', 'setdefault', 'parse_bytes', 'parse_bytearray',
+	'append_str', 'append_bytes', 'append_bytearray', 'elements_bytes_name', 'elements_lower', 'join_list', 'join_tuple', 'join_iter', 'join_gen', 'sorted_list', 'sorted_tuple',
+	'sorted_iter', 'sorted_gen', 'sorted_map', 'sorted_chain', 'values', 'get_element']
+TYP_CONTAINERS = ['dict', 'odict', 'pairs', 'tuple', 'iter', 'gen', 'map', 'chain', 'bytes', 'items', 'proxy']
+TYP_CREATORS = ['class', 'create_element', 'append_element', 'set_element', 'append_kw']
+ALI_HOWS = ['copy', 'copy2', 'dict', 'odict', 'update', 'merge', 'params', 'append_el', 'elements', 'sorted', 'join']
+REF_HOWS = ['append_el_bad', 'set_el_bad', 'create_bad', 'merge_bad', 'parse_str', 'parse_nocolon', 'parse_badname', 'setitem_badname', 'append_badname', 'elements_other_bad',
+	'sorted_bad', 'update_bad']
+REF_QHOWS = ('append_el_bad', 'set_el_bad', 'create_bad', 'merge_bad')
+CS_TEXTS = [('iso-8859-1', '\u00e9'), ('ISO-8859-1', 'na\u00efve'), ('latin1', '\u00b5'), ('cp1252', '\u20ac'), ('windows-1252', '\u201cq\u201d'), ('cp1252', '\u0161'), ('koi8-r', '\u0436'),
+	('KOI8-R', '\u043f\u0440\u0438'), ('utf-16', '\u0436a'), ('UTF-16', '\U0001f600'), ('utf-16-le', '\u00e9'), ('utf-16-be', '\u20ac'), ('utf-32', 'a\u0436'), ('cp1251', '\u0436'),
+	('shift_jis', '\u3042'), ('gb18030', '\u4e2d'), ('iso8859-15', '\u20ac'), ('utf-8', '\u0436')]
+# parameter values whose text ends in or contains '=' padding, blanks, control octets, percent triplets, separators (read direction; quoted)
+PVALS5 = ['YQ==', 'YWI=', '=', '==', 'a=', '=a', ' a', 'a ', ' ', '  ', '\ta', 'a\t', 'a\tb', '\x0ba', 'a\x0c', '\x0b', 'a  b', 'a\\b', '%20', '%0A', '%00', 'a%', "''", "utf-8''x", '*', 'a*',
+	';', ',', ', ', ',b', 'q=0.9', '; q', 'q;', '\x7f', '\x01', 'a\x1fb']
+
+
+def _join5(els, sep=', '):
+	return sep.join(_render2(e) for e in els)
+
+
+def _wave5(rng, tier):
+	big = tier == 'thorough'
+	out = []
+	plain = [x for x in PARAMS if x[1] and all(ord(ch) < 128 for ch in x[1])]
+	tokens = [x for x in plain if not re.search(r'[ ()<>@,;:\\"/\[\]?=]', x[1])]
+
+	def add(name, els, nocoq=False, sep=', ', **kw):
+		fv = sep.join(_render2(e, **kw) for e in els).encode('ISO8859-1')
+		c = {'k': 'elems', 'name': name, 'fv': fv.hex(), 'want': els}
+		if nocoq or len(fv) > 600:
+			c['nocoq'] = 1
+		out.append(c)
+		return c
+
+	def rels(name, n, qpool=None):
+		return [_mk(rng.choice(VALUES[name]), rng.choice(qpool or (Q_OK + [None, None])), rng.sample(plain, rng.choice([0, 0, 1]))) for _ in range(n)]
+
+	def merge_seqs(seqlist):
+		seqlist = [list(s) for s in seqlist if s]
+		res = []
+		while seqlist:
+			i = rng.randrange(len(seqlist))
+			res.append(seqlist[i].pop(0))
+			if not seqlist[i]:
+				del seqlist[i]
+		return res
+
+	# (14) + (15): one negotiation list in two or three field lines, adjacent or separated by other fields (other negotiation fields included), through every way of
+	# getting field lines into a Headers object
+	def block(via, layout, bad):
+		names = rng.sample(NAMES, rng.choice([1, 1, 2, 3]))
+		seqs = []
+		for j, name in enumerate(names):
+			n = rng.randint(2, 5)
+			els = rels(name, n)
+			k = min(n, rng.choice([2, 2, 3]) if j == 0 else rng.choice([1, 2, 2, 3]))
+			cuts = sorted(rng.sample(range(1, n), k - 1))
+			chunks = [els[a:b] for a, b in zip([0] + cuts, cuts + [n])]
+			if bad is not None and j == 0:
+				ch = chunks[0 if bad[0] == 'first' else -1]
+				ch[rng.randrange(len(ch))]['q'] = bad[1]
+			seq = []
+			for ch in chunks:
+				fold = via in ('parse', 'parse_ba', 'server') and len(ch) > 1 and rng.random() < 0.15
+				seq.append({'n': rng.choice(_lcases(name) + [name, name]), 'c': name, 'w': ch, 'v': _join5(ch, rng.choice([',\r\n ', ',\r\n\t']) if fold else rng.choice([', ', ',', ', '])),
+					'sp': rng.choice([': ', ': ', ':', ':  ', ':\t'])})
+			seqs.append(seq)
+		others = [{'n': a, 'c': None, 'w': None, 'v': b, 'sp': ': '} for a, b in rng.sample(OTHERF, 3)]
+		if layout == 'adjacent':
+			groups = seqs + [[x] for x in others[:rng.randint(1, 3)]]
+			rng.shuffle(groups)
+			lines = [l for g in groups for l in g]
+		elif layout == 'separated':
+			lines = []
+			for i in range(max(len(s) for s in seqs)):
+				for s in seqs:
+					if i < len(s):
+						lines.append(s[i])
+				lines.append(others[i])
+		elif layout == 'ends':
+			lines = [seqs[0][0]] + merge_seqs([seqs[0][1:-1]] + seqs[1:] + [others[:rng.randint(1, 3)]]) + [seqs[0][-1]]
+		else:
+			lines = merge_seqs(seqs + [others[:rng.randint(1, 3)]])
+		return {'k': 'blk', 'via': via, 'lay': layout, 'lines': lines, 'cut': rng.randint(1, len(lines) - 1), 'frag': rng.choice([0, 1, 2, 3, 5, 7, 16, 64])}
+
+	for via in BLK_VIAS:
+		for layout in BLK_LAYOUTS:
+			for rep in range(60 if big else 16):
+				bad = None
+				if via != 'merge' and rep % 5 == 4:
+					bad = (rng.choice(['first', 'last']), rng.choice(BADQ))
+				out.append(block(via, layout, bad))
+	# the lines of the demo shape: every cut of a four element list, the two lines around / between / before / after the other fields, second line in lower case
+	for name in NAMES:
+		vals = VALUES[name]
+		els = [_mk(vals[0], None, [('level', '1')] if name == 'Accept' else ()), _mk(vals[1], '0.9'), _mk(vals[2], '0.5'), _mk(vals[3], '0.1')]
+		for i in range(1, 4):
+			a = {'n': name, 'c': name, 'w': els[:i], 'v': _join5(els[:i]), 'sp': ': '}
+			b = {'n': name, 'c': name, 'w': els[i:], 'v': _join5(els[i:]), 'sp': ': '}
+			oth = [{'n': x, 'c': None, 'w': None, 'v': y, 'sp': ': '} for x, y in OTHERF[:3]]
+			for lines in ([a, b] + oth, [oth[0], a, oth[1], b, oth[2]], [a] + oth + [b], [a, oth[0], dict(b, n=name.lower())], [b, oth[0], a]):
+				for via in ('parse', 'server') if not big else BLK_VIAS:
+					out.append({'k': 'blk', 'via': via, 'lay': 'demo', 'lines': lines, 'cut': 2, 'frag': 0})
+		for lines in ([{'n': name, 'c': name, 'w': [_mk(vals[0], 'high')], 'v': vals[0] + ';q=high', 'sp': ': '}, {'n': 'User-Agent', 'c': None, 'w': None, 'v': 'x', 'sp': ': '},
+				{'n': name, 'c': name, 'w': [_mk(vals[1])], 'v': vals[1], 'sp': ': '}],
+				[{'n': name, 'c': name, 'w': [_mk(vals[0])], 'v': vals[0], 'sp': ': '}, {'n': 'User-Agent', 'c': None, 'w': None, 'v': 'x', 'sp': ': '},
+				{'n': name, 'c': name, 'w': [_mk(vals[1], '0.5x')], 'v': vals[1] + ';q=0.5x', 'sp': ': '}]):
+			for via in ('parse', 'lines', 'server'):
+				out.append({'k': 'blk', 'via': via, 'lay': 'demo', 'lines': lines, 'cut': 1, 'frag': 3})
+
+	# (11) argument types of every entry point
+	def maybe_bad(els, p):
+		if rng.random() < p:
+			rng.choice(els)['q'] = rng.choice(BADQ)
+		return els
+	for how in TYP_FIELD:
+		for rep in range(10 if big else 4):
+			name = rng.choice(NAMES)
+			els = maybe_bad(rels(name, 1 if how == 'set_obj' else rng.randint(1, 4)), 0.15)
+			out.append({'k': 'typ', 'how': how, 'name': name, 'want': els})
+	for cont in TYP_CONTAINERS:
+		for creator in TYP_CREATORS:
+			for rep in range(6 if big else 2):
+				name = rng.choice(NAMES)
+				ps = [list(x) for x in rng.sample(tokens, min(len(tokens), rng.choice([1, 2, 3])))]
+				q = rng.choice(Q_OK + ([rng.choice(BADQ[:4])] if rep == 1 else []))
+				order = list(ps)
+				i = rng.randint(0, len(ps))
+				order.insert(i, ['q', q])
+				if q == '':
+					continue  # an empty text given through the API means "no value" (a flag parameter), not an empty quality value on the wire
+				el = _mk(rng.choice(VALUES[name]), q, ps[:i], ps[i:])
+				out.append({'k': 'typ', 'how': 'el_' + cont, 'create': creator, 'name': name, 'want': [el], 'order': order})
+
+	# (10) aliasing
+	for how in ALI_HOWS:
+		for rep in range(24 if big else 8):
+			name = rng.choice(NAMES)
+			one = how in ('params', 'append_el')
+			w1 = rels(name, 1 if one else rng.randint(1, 4), Q_OK)
+			w2 = rels(name, 1 if one else rng.randint(1, 3), Q_OK)
+			if one:
+				w1[0]['p'] = [list(x) for x in rng.sample(tokens, rng.choice([1, 2]))]
+			out.append({'k': 'ali', 'how': how, 'name': name, 'want': w1, 'want2': w2})
+
+	# (12) refused operations
+	for how in REF_HOWS:
+		for rep in range(20 if big else 7):
+			name = rng.choice(NAMES)
+			out.append({'k': 'ref', 'how': how, 'name': name, 'want': rels(name, rng.randint(1, 4), Q_OK), 'want2': rels(name, rng.randint(1, 2), Q_OK), 'bad': rng.choice(BADQ),
+				'other': rng.choice([x for x in NAMES if x != name]), 'i': rng.randrange(4)})
+
+	# (13) charset labels of RFC 2231 parameters and RFC 2047 words (oracle: Python's codec of that name)
+	for cs, txt in CS_TEXTS:
+		for how, enc in (('rfc2231', None), ('rfc2047', 'b'), ('rfc2047', 'q')):
+			c = {'k': 'uni', 'name': rng.choice(NAMES), 'how': how, 'text': txt, 'cs': cs, 'q': rng.choice(['0.5', '0.3', None]), 'q2': rng.choice(['0.4', '1', None])}
+			if enc:
+				c['enc'] = enc
+			out.append(c)
+	# encoded words whose base64 text ends in no / one / two '=' (lengths 1..9 of a non-Latin-1 text), API and wire
+	for n in range(1, 10):
+		for how in ('rfc2047', 'api', 'rfc2231'):
+			out.append({'k': 'uni', 'name': rng.choice(NAMES), 'how': how, 'text': ('\u0436' * n)[:n - 1] + 'z', 'q': rng.choice(['0.5', None]), 'q2': rng.choice(['0.4', None])})
+
+	# (16) every per-mille quality value between its neighbours, in the spellings a sender may use; parameter values with padding / blanks / control octets
+	mills = list(range(0, 1001)) if big else sorted(set([0, 1, 2, 9, 10, 11, 99, 100, 101, 499, 500, 501, 998, 999, 1000] + rng.sample(range(1001), 170)))
+
+	def spell(m):
+		if m >= 1000:
+			return rng.choice(['1', '1.0', '1.00', '1.000'])
+		t = '0.%03d' % m
+		r = rng.random()
+		if r < 0.5:
+			t = t.rstrip('0') if m else rng.choice(['0', '0.0', '0.000'])
+			if t == '0.':
+				t = '0'
+		return t
+	for m in mills:
+		name = rng.choice(NAMES)
+		vals = rng.sample(VALUES[name], 3) if len(VALUES[name]) >= 3 else VALUES[name]
+		trio = [_mk(vals[0], spell(max(m - 1, 0))), _mk(vals[1], spell(m)), _mk(vals[2], spell(min(m + 1, 1000)))]
+		rng.shuffle(trio)
+		add(name, trio)
+	for pv in PVALS5:
+		for name in (NAMES if big else rng.sample(NAMES, 2)):
+			add(name, [_mk(VALUES[name][1], '0.3'), _mk(VALUES[name][0], rng.choice(['0.7', None]), [('x', pv)]), _mk(VALUES[name][2], '0.5', [('y', pv), ('z', '1')])], style='quoted')
+
+	# (17) lengths 2^k and 2^k +- 1 (k = 9..16) in every length-carrying position: value, parameter value (token / quoted), parameter name, q text, blank run, the whole field
+	for n in POW2:
+		if n > 8193 and not big and n not in (16384, 32769, 65535, 65536, 65537):
+			continue
+		name = rng.choice(NAMES)
+		v0, v1, v2 = VALUES[name][0], VALUES[name][1], VALUES[name][2]
+		longv = 'x' * n if name != 'Accept' else 'a/' + 'x' * (n - 2)
+		add(name, [_mk(v1, '0.3'), _mk(longv, '0.7'), _mk(v2)])
+		add(name, [_mk(v0, '0.2', [('x', 'y' * n)]), _mk(v1, '0.8')], style=rng.choice(['token', 'quoted']))
+		add(name, [_mk(v0, '0.2', [('x', 'y ' * (n // 2) + 'y' * (n % 2))]), _mk(v1, '0.8')], style='quoted')
+		add(name, [_mk(v0, '0.2', [('k' * n, '1')]), _mk(v1, '0.8')])
+		add(name, [_mk(v0, '0.5'), _mk(v1, '0.' + '0' * (n - 3) + '1'), _mk(v2, '0.50')], nocoq=True)
+		add(name, [_mk(v0, 'x' * n), _mk(v1, '0.5')])
+		add(name, [_mk(v0, '0.2', [('x', '1')]), _mk(v1, '0.8')], psep=';' + ' ' * n, sep=',' + ' ' * n)
+		# the whole field value is exactly n octets long
+		els = rels(name, rng.randint(2, 4), Q_OK)
+		pad = n - len(_join5(els).encode('ISO8859-1')) - len(';pad=')
+		if pad > 0:
+			els[-1]['ext' if els[-1]['q'] is not None and name == 'Accept' else 'p'] = [['pad', 'p' * pad]]
+			if els[-1]['q'] is not None and name != 'Accept':  # for the other four fields the parameter goes in front of the quality value
+				els[-1]['p'] = [['pad', 'p' * pad]]
+			add(name, els)
+	for n in ([511, 512, 513, 2049] if not big else [511, 512, 513, 2047, 2048, 2049, 4097, 8191, 8192, 8193]):
+		name = rng.choice(NAMES)
+		els = [_mk('%s%d' % (rng.choice(['a', 'b', 'zz']), i) if name != 'Accept' else 'a/t%d' % i, '0.%03d' % rng.randint(0, 999) if i % 5 else None) for i in range(n)]
+		c = add(name, els, nocoq=True)
+		els2 = list(els)
+		rng.shuffle(els2)
+		c2 = add(name, els2, nocoq=True)
+		out.append({'k': 'perm', 'name': name, 'fv': c['fv'], 'fv2': c2['fv']})
+	return out
+
+
+def _es_obs(es):
+	out = []
+	try:
+		for e in es:
+			q = e.quality
+			enc = lambda x: (x if isinstance(x, bytes) else x.encode('ISO8859-1')).hex()
+			out.append({'v': enc(e.value), 'p': [[enc(k), enc(v)] for k, v in e.params.items()], 't': bytes(e).hex(), 'q': None if q is None else str(Fraction(q)) if q == q and abs(q) != math.inf else 'nan'})
+	except Exception as exc:
+		return {'err': 'escape:%s' % type(exc).__name__, 'msg': str(exc)[:200]}
+	return {'es': out}
+
+
+def _blk_names(c):
+	names = []
+	for l in c['lines']:
+		if l['c'] and l['c'] not in names:
+			names.append(l['c'])
+	return names
+
+
+def _blk_joined(c, name):
+	"""the one-line form of RFC 7230 3.2.2: the values of the lines of this name in the order received, joined by a comma (obs-fold replaced by a blank)"""
+	return ', '.join(re.sub('\r\n[ \t]+', ' ', l['v']) for l in c['lines'] if l['c'] == name).encode('ISO8859-1')
+
+
+def _blk_want(c, name):
+	return [el for l in c['lines'] if l['c'] == name for el in l['w']]
+
+
+def _blk_wire(c):
+	return [(l['n'] + l.get('sp', ': ') + l['v']).encode('ISO8859-1') for l in c['lines']]
+
+
+def _blk_build(c):
+	from httoop import Headers
+	via, lines, wire = c['via'], c['lines'], _blk_wire(c)
+	block = b'\r\n'.join(wire)
+	h = Headers()
+	if via == 'parse':
+		h.parse(block)
+	elif via == 'parse_ba':
+		h.parse(bytearray(block))
+	elif via == 'parse2':
+		h.parse(b'\r\n'.join(wire[:c['cut']]))
+		h.parse(b'\r\n'.join(wire[c['cut']:]))
+	elif via == 'lines':
+		for w in wire:
+			h.parse(w)
+	elif via in ('append', 'setappend'):
+		seen = set()
+		for i, l in enumerate(lines):
+			v = l['v'] if i % 2 else l['v'].encode('ISO8859-1')
+			if via == 'setappend' and (l['c'] or l['n']) not in seen:
+				h[l['n']] = v
+			else:
+				h.append(l['n'], v)
+			seen.add(l['c'] or l['n'])
+	elif via == 'server':
+		from httoop import ServerStateMachine
+		sm = ServerStateMachine('http', 'localhost', 80)
+		data = b'GET / HTTP/1.1\r\nHost: localhost\r\n' + block + b'\r\n\r\n'
+		n = c['frag'] or len(data)
+		got = []
+		for i in range(0, len(data), n):
+			got.extend(sm.parse(data[i:i + n]))
+		if len(got) != 1:
+			raise ValueError('%d messages' % len(got))
+		h = got[0][0].headers
+	elif via == 'compose':
+		h.parse(block)
+		text = h.compose()
+		if not text.endswith(b'\r\n\r\n'):
+			raise ValueError('composed header block does not end in an empty line')
+		h = Headers()
+		h.parse(text[:-4])
+	elif via == 'copy':
+		h.parse(block)
+		h = Headers(h)
+	elif via == 'merge':
+		h.parse(b'\r\n'.join(wire[:c['cut']]))
+		h2 = Headers()
+		h2.parse(b'\r\n'.join(wire[c['cut']:]))
+		h.merge(h2)
+	else:
+		raise ValueError(via)
+	return h
+
+
+def _observe_blk(c):
+	from httoop import Headers
+	try:
+		h = _blk_build(c)
+	except Exception as exc:
+		return {'err': 'escape:%s' % type(exc).__name__, 'msg': str(exc)[:200]}
+	out = {'res': {}, 'fresh': {}, 'one': {}, 'raw': {}}
+	for name in _blk_names(c):
+		out['res'][name] = _elements_of(h, name)
+		raw = h.getbytes(name)
+		out['raw'][name] = None if raw is None else raw.hex()
+		out['fresh'][name] = None
+		if raw is not None:
+			h2 = Headers()
+			h2[name] = raw
+			out['fresh'][name] = _elements_of(h2, name)
+		h3 = Headers()
+		h3[name] = _blk_joined(c, name)
+		out['one'][name] = _elements_of(h3, name)
+	return out
+
+
+def _same_ranking(a, b):
+	"""two results for the same listed elements: both refused, or equal quality sequences and equal multisets (the perm comparison)"""
+	if ('es' in a) != ('es' in b):
+		return 'one is accepted, the other is %s' % (a.get('err') or b.get('err'))
+	if 'es' in a:
+		if [e['q'] for e in a['es']] != [e['q'] for e in b['es']]:
+			return 'quality sequences differ: %s / %s' % ([e['q'] for e in a['es']], [e['q'] for e in b['es']])
+		key = lambda e: (e['v'], tuple(map(tuple, sorted(p for p in e['p'] if p[0] != '71'))), e['q'])
+		if sorted(map(key, a['es'])) != sorted(map(key, b['es'])):
+			return 'the multisets of returned elements differ'
+	return None
+
+
+def _oracle_blk(c, o):
+	lab = 'lines/%s: ' % c['via']
+	what = '; header block %r (layout %s, cut %s, fragments %s)' % (b' | '.join(_blk_wire(c)), c['lay'], c['cut'], c['frag'])
+	if 'err' in o:
+		return lab + 'unexpected exception %s%s' % (o, what)
+	for name in _blk_names(c):
+		want, joined, r = _blk_want(c, name), _blk_joined(c, name), o['res'][name]
+		fail = _check_result({'fv': joined, 'want': want}, r, name)
+		if fail:
+			return lab + fail + what
+		if o['raw'][name] is None:
+			return lab + 'not-a-permutation: the field %s is gone%s' % (name, what)
+		if o['fresh'][name] != r:
+			return lab + 'elements(%r) gives %r, a fresh object with the same field value gives %r%s' % (name, r, o['fresh'][name], what)
+		diff = _same_ranking(r, o['one'][name])
+		if diff:
+			return lab + 'order-dependent: the lines of %s and their one-line form %r: %s%s' % (name, joined, diff, what)
+	return None
+
+
+def _coq_blk(c, o):
+	"""model(elements of the one-line form the harness builds) = implementation(elements after the lines went in): a lost or misplaced line is a disagreement"""
+	if c['via'] == 'merge':
+		return None  # merge re-renders the elements (RFC 2231 spelling of non-ASCII parameters): oracle only
+	if 'res' not in o:
+		return 'CFloat true [] OFin'  # force a disagreement
+	terms = []
+	for name in _blk_names(c):
+		joined, r = _blk_joined(c, name), o['res'][name]
+		if len(joined) > 600:
+			continue
+		if str(r.get('err', '')).startswith('escape'):
+			terms.append('CFloat true [] OFin')
+			continue
+		obs = 'EoInvalid' if r.get('err') == 'invalid' else _coq_eook(r)
+		terms.append('CElems %s %s %s %s' % (B(_must({'fv': joined.hex(), 'want': _blk_want(c, name)})), X(name.encode()), X(joined), obs))
+	return terms or None
+
+
+class _HarnessError(Exception):
+	pass
+
+
+class _Obj(object):
+	"""an object that is not bytes or str but has a byte form (what Headers.formatvalue documents: bytes(value))"""
+
+	def __init__(self, data):
+		self.data = data
+
+	def __bytes__(self):
+		return self.data
+
+
+def _container(kind, pairs):
+	pairs = [tuple(x) for x in pairs]
+	if kind == 'dict':
+		return dict(pairs)
+	if kind == 'odict':
+		return collections.OrderedDict(pairs)
+	if kind == 'pairs':
+		return list(pairs)
+	if kind == 'tuple':
+		return tuple(pairs)
+	if kind == 'iter':
+		return iter(list(pairs))
+	if kind == 'gen':
+		return (x for x in pairs)
+	if kind == 'map':
+		return map(tuple, [list(x) for x in pairs])
+	if kind == 'chain':
+		return itertools.chain(pairs[:1], pairs[1:])
+	if kind == 'bytes':
+		return dict((k.encode('ISO8859-1'), v.encode('ISO8859-1')) for k, v in pairs)
+	if kind == 'items':
+		return dict(pairs).items()
+	if kind == 'proxy':
+		return types.MappingProxyType(dict(pairs))
+	raise ValueError(kind)
+
+
+def _observe_typ(c):
+	from httoop import Headers
+	from httoop.exceptions import InvalidHeader
+	from httoop.header.element import HEADER
+	name, how, want = c['name'], c['how'], c['want']
+	E = HEADER[name]
+	o = {}
+	try:
+		if how.startswith('el_'):
+			el = want[0]
+			arg = _container(how[3:], c['order'])
+			fv = (el['v'] + ''.join(';%s=%s' % (k, v) for k, v in c['order'])).encode('ISO8859-1')
+			h = Headers()
+			e = None
+			try:
+				if c['create'] == 'class':
+					e = E(el['v'], arg)
+					h[name] = bytes(e)
+				elif c['create'] == 'create_element':
+					e = h.create_element(name, el['v'], arg)
+					h[name] = bytes(e)
+				elif c['create'] == 'append_element':
+					h.append_element(name, el['v'], arg)
+				elif c['create'] == 'set_element':
+					h.set_element(name, el['v'], arg)
+				else:
+					h.append(name, el['v'], **dict((k, v) for k, v in c['order']))
+				o['res'] = _elements_of(h, name)
+			except InvalidHeader:
+				o['res'] = {'err': 'invalid'}
+			if e is not None:
+				o['porder'] = [(k if isinstance(k, bytes) else k.encode('ISO8859-1')).hex() for k in e.params]
+		else:
+			fvs = _join5(want)
+			fv = fvs.encode('ISO8859-1')
+			pieces = [_render2(e).encode('ISO8859-1') for e in want]
+			pairs = [('User-Agent', b'x'), (name, fv), ('Host', b'y')]
+			h = Headers()
+			if how == 'set_str':
+				h[name] = fvs
+			elif how == 'set_bytearray':
+				h[name] = bytearray(fv)
+			elif how == 'set_memoryview':
+				h[name] = memoryview(fv)
+			elif how == 'set_lower':
+				h[name.lower()] = fv
+			elif how == 'set_bytes_name':
+				h[name.upper().encode()] = fv
+			elif how == 'set_obj':
+				h[name] = _Obj(fv)
+			elif how == 'ctor_dict':
+				h = Headers(dict(pairs))
+			elif how == 'ctor_odict':
+				h = Headers(collections.OrderedDict(pairs))
+			elif how == 'ctor_pairs':
+				h = Headers(list(pairs))
+			elif how == 'ctor_tuple':
+				h = Headers(tuple(pairs))
+			elif how == 'ctor_iter':
+				h = Headers(iter(pairs))
+			elif how == 'ctor_gen':
+				h = Headers(x for x in pairs)
+			elif how == 'ctor_map':
+				h = Headers(map(tuple, pairs))
+			elif how == 'ctor_chain':
+				h = Headers(itertools.chain(pairs[:1], pairs[1:]))
+			elif how == 'ctor_kw':
+				h = Headers(**{name.replace('-', '_') if '-' not in name else 'X': fv}) if '-' not in name else Headers(dict(pairs), X='1')
+			elif how == 'ctor_headers':
+				h = Headers(Headers(dict(pairs)))
+			elif how == 'ctor_bytes':
+				h = Headers({name.encode(): fvs})
+			elif how == 'update_dict':
+				h.update(dict(pairs))
+			elif how == 'update_odict':
+				h.update(collections.OrderedDict(pairs))
+			elif how == 'update_headers':
+				h.update(Headers(dict(pairs)))
+			elif how == 'set_dict':
+				h['Accept'] = 'old/old;q=x'
+				h.set(dict(pairs))
+			elif how == 'setdefault':
+				h.setdefault(name, fv)
+				h.setdefault(name, b'zz;q=x')
+			elif how == 'parse_bytes':
+				h.parse(name.encode() + b': ' + fv)
+			elif how == 'parse_bytearray':
+				h.parse(bytearray(name.encode() + b': ' + fv))
+			elif how == 'append_str':
+				for p in pieces:
+					h.append(name, p.decode('ISO8859-1'))
+			elif how == 'append_bytes':
+				for p in pieces:
+					h.append(name, p)
+			elif how == 'append_bytearray':
+				for p in pieces:
+					h.append(name, bytearray(p))
+			elif how in ('elements_bytes_name', 'elements_lower', 'values', 'get_element'):
+				h[name] = fv
+			elif how.startswith('join_'):
+				arg = {'list': list, 'tuple': tuple, 'iter': iter, 'gen': lambda x: (y for y in x)}[how[5:]](pieces)
+				h[name] = E.join(arg)
+			elif how.startswith('sorted_'):
+				try:
+					es = [E.parse(p) for p in pieces]
+					arg = {'list': list, 'tuple': tuple, 'iter': iter, 'gen': lambda x: (y for y in x), 'map': lambda x: map(lambda y: y, x), 'chain': lambda x: itertools.chain(x[:1], x[1:])}[how[7:]](es)
+					o['res'] = _es_obs(E.sorted(arg))
+				except InvalidHeader:
+					o['res'] = {'err': 'invalid'}
+			else:
+				raise ValueError(how)
+			if how == 'elements_bytes_name':
+				o['res'] = _elements_of(h, name.encode())
+			elif how == 'elements_lower':
+				o['res'] = _elements_of(h, name.lower())
+			elif 'res' not in o:
+				o['res'] = _elements_of(h, name)
+			if how == 'values':
+				try:
+					o['values'] = [(x if isinstance(x, bytes) else x.encode('ISO8859-1')).hex() for x in h.values(name)]
+				except InvalidHeader:
+					o['values'] = 'invalid'
+			if how == 'get_element':
+				try:
+					x = h.get_element(name)
+					o['first'] = None if x is None else bytes(x).hex()
+				except InvalidHeader:
+					o['first'] = 'invalid'
+		h0 = Headers()
+		h0[name] = fv
+		o['base'] = _elements_of(h0, name)
+	except Exception as exc:
+		return {'err': 'escape:%s' % type(exc).__name__, 'msg': str(exc)[:200]}
+	return o
+
+
+def _oracle_typ(c, o):
+	how = c['how'] + ('/' + c['create'] if 'create' in c else '')
+	lab = 'types/%s: ' % how
+	what = '; %s, listed %r' % (c['name'], c['want'])
+	if 'err' in o:
+		return lab + 'unexpected exception %s%s' % (o, what)
+	fv = (_join5(c['want']) if 'order' not in c else c['want'][0]['v'] + ''.join(';%s=%s' % (k, v) for k, v in c['order'])).encode('ISO8859-1')
+	fail = _check_result({'fv': fv, 'want': c['want']}, o['res'], c['name'])
+	if fail:
+		return lab + fail + what
+	if o['res'] != o['base']:
+		return lab + 'not-a-permutation: this argument type gives %r, the bytes form %r gives %r%s' % (o['res'], fv, o['base'], what)
+	if 'order' in c and 'es' in o['res']:
+		keys = [k.encode('ISO8859-1').hex() for k, _ in c['order']]
+		if 'porder' in o and o['porder'] != keys:
+			return lab + 'parameters not in the order given: %r, given %r%s' % ([bytes.fromhex(k) for k in o['porder']], [k for k, _ in c['order']], what)
+		got = [p[0] for e in o['res']['es'] for p in e['p']]
+		if got != keys:
+			return lab + 'parameters not in the order given: %r, given %r%s' % ([bytes.fromhex(k) for k in got], [k for k, _ in c['order']], what)
+	if 'values' in o and o['values'] != ('invalid' if 'es' not in o['res'] else [e['v'] for e in o['res']['es']]):
+		return lab + 'not-sorted: values() gives %r, elements() %r%s' % (o['values'], o['res'], what)
+	if 'first' in o and o['first'] != ('invalid' if 'es' not in o['res'] else o['res']['es'][0]['t'] if o['res']['es'] else None):
+		return lab + 'not-sorted: get_element() gives %r, elements() %r%s' % (o['first'], o['res'], what)
+	return None
+
+
+def _observe_ali(c):
+	from httoop import Headers
+	from httoop.header.element import HEADER
+	name, how = c['name'], c['how']
+	E = HEADER[name]
+	fv, fv2 = _join5(c['want']).encode('ISO8859-1'), _join5(c['want2']).encode('ISO8859-1')
+	o = {'flag': True}
+	try:
+		if how in ('copy', 'copy2'):
+			a = Headers()
+			a[name] = fv
+			a['Host'] = 'x'
+			b = Headers(a)
+			if how == 'copy2':
+				a, b = b, a
+			b.append(name, fv2)
+			del b['Host']
+			b['X-New'] = '1'
+			o['A'], o['AB'] = _elements_of(a, name), _elements_of(b, name)
+			o['flag'] = 'Host' in a and 'X-New' not in a
+		elif how in ('dict', 'odict'):
+			d = (dict if how == 'dict' else collections.OrderedDict)([('User-Agent', b'x'), (name, fv), ('Host', b'y')])
+			snap = list(d.items())
+			a = Headers(d)
+			b = Headers(d)
+			b.append(name, fv2)
+			b.pop('Host')
+			o['A'], o['AB'] = _elements_of(a, name), _elements_of(b, name)
+			o['flag'] = list(d.items()) == snap and 'Host' in a
+		elif how == 'update':
+			b = Headers()
+			b[name] = fv
+			a = Headers()
+			a.update(b)
+			b.append(name, fv2)
+			o['A'], o['AB'] = _elements_of(a, name), _elements_of(b, name)
+		elif how == 'merge':
+			a = Headers()
+			a[name] = fv
+			b = Headers()
+			b[name] = fv2
+			b['Host'] = 'y'
+			snap = dict(b)
+			a.merge(b)
+			o['AB'], o['B'] = _elements_of(a, name), _elements_of(b, name)
+			o['flag'] = dict(b) == snap
+			a[name] = b'zz9;q=0.001'
+			a.pop('Host')
+			o['flag'] = o['flag'] and dict(b) == snap
+		elif how in ('params', 'append_el'):
+			el = c['want'][0]
+			P = dict((k, v) for k, v in el['p'])
+			if el['q'] is not None:
+				P['q'] = el['q']
+			snap = dict(P)
+			h = Headers()
+			if how == 'params':
+				e1 = E(el['v'], P)
+				e2 = E(c['want2'][0]['v'], P)
+				e2.params['q'] = '0.123'
+				e2.params['zz'] = '1'
+				e2.params.pop(list(snap)[0].encode(), None)
+				o['flag'] = P == snap
+				h[name] = bytes(e1)
+			else:
+				h.append_element(name, el['v'], P)
+				P['q'] = '0'
+				P['zz'] = '1'
+				P.pop(list(snap)[0])
+			o['A'] = _elements_of(h, name)
+		elif how == 'elements':
+			a = Headers()
+			a[name] = fv
+			es = a.elements(name)
+			es2 = a.elements(name)
+			es[0].params['q'] = '0'
+			es[0].params['zz'] = '1'
+			es[0].value = 'zz'
+			es.reverse()
+			es.pop()
+			o['A2'] = _es_obs(es2)
+			o['A'] = _elements_of(a, name)
+		elif how == 'sorted':
+			lst = [E.parse(_render2(e).encode('ISO8859-1')) for e in c['want']]
+			ids, texts = [id(x) for x in lst], [bytes(x) for x in lst]
+			res = E.sorted(lst)
+			o['A'] = _es_obs(res)
+			o['flag'] = res is not lst and [id(x) for x in lst] == ids and [bytes(x) for x in lst] == texts
+			res.reverse()
+			del res[:]
+			o['flag'] = o['flag'] and [id(x) for x in lst] == ids
+			o['A2'] = _es_obs(E.sorted(lst))
+		elif how == 'join':
+			lst = [_render2(e).encode('ISO8859-1') for e in c['want']]
+			snap = list(lst)
+			h = Headers()
+			h[name] = E.join(lst)
+			o['flag'] = lst == snap
+			lst.append(b'zz;q=x')
+			o['A'] = _elements_of(h, name)
+		else:
+			raise ValueError(how)
+	except Exception as exc:
+		return {'err': 'escape:%s' % type(exc).__name__, 'msg': str(exc)[:200]}
+	return o
+
+
+def _oracle_ali(c, o):
+	lab = 'aliasing/%s: ' % c['how']
+	what = '; %s, A listed %r, B added %r' % (c['name'], c['want'], c['want2'])
+	if 'err' in o:
+		return lab + 'unexpected exception %s%s' % (o, what)
+	if not o['flag']:
+		return lab + 'not-a-permutation: the argument object / the other object was changed%s' % what
+	for key, want in (('A', c['want']), ('A2', c['want']), ('AB', c['want'] + c['want2']), ('B', c['want2'])):
+		if key in o:
+			fail = _check_result({'fv': _join5(want).encode('ISO8859-1'), 'want': want}, o[key], c['name'])
+			if fail:
+				return lab + '%s (object %s, which must behave like a fresh object with its own elements)%s' % (fail, key, what)
+	return None
+
+
+def _observe_ref(c):
+	from httoop import Headers
+	from httoop.header.element import HEADER
+	name, how = c['name'], c['how']
+	E = HEADER[name]
+	fv, fv2 = _join5(c['want']).encode('ISO8859-1'), _join5(c['want2']).encode('ISO8859-1')
+	try:
+		if how == 'sorted_bad':
+			lst = [E.parse(_render2(e).encode('ISO8859-1')) for e in c['want']]
+			ids = [id(x) for x in lst]
+			x = lst[c['i'] % len(lst)]
+			good = x.params.get('q')
+			x.params['q'] = c['bad'] or 'x'
+			raised = None
+			try:
+				E.sorted(lst)
+			except Exception as exc:
+				raised = type(exc).__name__
+			same = [id(y) for y in lst] == ids
+			if good is None:
+				x.params.pop('q')
+			else:
+				x.params['q'] = good
+			r = _es_obs(E.sorted(lst))
+			t = _es_obs(E.sorted([E.parse(_render2(e).encode('ISO8859-1')) for e in c['want']]))
+			return {'raised': raised, 'h1': r, 't1': t, 'same': same, 'h2': None, 't2': None}
+		h, t = Headers(), Headers()
+		for x in (h, t):
+			x[name] = fv
+			x['Host'] = 'x'
+			if how == 'elements_other_bad':
+				x[c['other']] = 'a;q=' + (c['bad'] or 'x')
+		other = Headers()
+		other[name] = 'zz;q=' + c['bad']
+		raised = None
+		try:
+			if how == 'append_el_bad':
+				h.append_element(name, 'zz', {'q': c['bad'], 'x': '1'})
+			elif how == 'set_el_bad':
+				h.set_element(name, 'zz', {'x': '1', 'q': c['bad']})
+			elif how == 'create_bad':
+				h.create_element(name, 'zz', {'q': c['bad']})
+			elif how == 'merge_bad':
+				h.merge(other)
+			elif how == 'parse_str':
+				h.parse(name + ': zz')
+			elif how == 'parse_nocolon':
+				h.parse(b'no colon in this line\r\n' + name.encode() + b': zz')
+			elif how == 'parse_badname':
+				h.parse(b'Bad Name: x\r\n' + name.encode() + b': zz')
+			elif how == 'setitem_badname':
+				h[name + ' '] = b'zz'
+			elif how == 'append_badname':
+				h.append(name + ':', b'zz')
+			elif how == 'elements_other_bad':
+				h.elements(c['other'])
+			elif how == 'update_bad':
+				h.update(5)
+			else:
+				raise _HarnessError(how)
+		except _HarnessError:
+			raise
+		except Exception as exc:
+			raised = type(exc).__name__
+		o = {'raised': raised, 'h1': _elements_of(h, name), 't1': _elements_of(t, name), 'same': dict(h) == dict(t)}
+		h.append(name, fv2)
+		t.append(name, fv2)
+		o['h2'], o['t2'] = _elements_of(h, name), _elements_of(t, name)
+		return o
+	except Exception as exc:
+		return {'err': 'escape:%s' % type(exc).__name__, 'msg': str(exc)[:200]}
+
+
+def _oracle_ref(c, o):
+	lab = 'refused/%s: ' % c['how']
+	what = '; %s, listed %r, refused with %r, then added %r' % (c['name'], c['want'], c['bad'], c['want2'])
+	if 'err' in o:
+		return lab + 'unexpected exception %s%s' % (o, what)
+	bad = c['bad'] or ('x' if c['how'] == 'sorted_bad' else '')
+	if c['how'] in REF_QHOWS and bad == '':
+		return None  # an empty text given through the API is a parameter without value, not an empty quality value
+	if c['how'] in REF_QHOWS and o['raised'] != 'InvalidHeader':
+		if 'es' in o['h1'] or o['raised'] is not None:
+			return lab + 'malformed-q-accepted: an element with the quality %r was not refused with InvalidHeader (%s)%s' % (bad, o['raised'], what)
+		return None
+	if o['raised'] is None and c['how'] != 'sorted_bad':
+		return None if c['how'] in ('parse_str', 'update_bad') else lab + 'the call was not refused%s' % what
+	if not o['same']:
+		return lab + 'not-a-permutation: the refused call changed the object%s' % what
+	for a, b, want in (('h1', 't1', c['want']), ('h2', 't2', c['want'] + c['want2'])):
+		if o[a] is None:
+			continue
+		fail = _check_result({'fv': _join5(want).encode('ISO8859-1'), 'want': want}, o[a], c['name'])
+		if fail:
+			return lab + fail + ' (after the refused call)' + what
+		if o[a] != o[b]:
+			return lab + 'not-a-permutation: after the refused call %r, an object on which it was never made %r%s' % (o[a], o[b], what)
+	return None
+
+
+W5_OBSERVE = {'blk': _observe_blk, 'typ': _observe_typ, 'ali': _observe_ali, 'ref': _observe_ref}
+W5_ORACLE = {'blk': _oracle_blk, 'typ': _oracle_typ, 'ali': _oracle_ali, 'ref': _oracle_ref}
